@@ -39,6 +39,8 @@ type MemCfg struct {
 	Caps     imap.CapSet // nil: IMAP4rev1 + IMAP4rev2
 	TLS      bool
 	Insecure bool // InsecureAuth (default true when TLS is false)
+	// Wrap, if set, decorates every backend session (e.g. to count Close calls)
+	Wrap func(imapserver.Session) imapserver.Session
 }
 
 // NewMem starts a server with one user "user"/"pass" and no mailbox.
@@ -52,6 +54,9 @@ func NewMem(cfg MemCfg) *Mem {
 	}
 	opts := &imapserver.Options{
 		NewSession: func(*imapserver.Conn) (imapserver.Session, *imapserver.GreetingData, error) {
+			if cfg.Wrap != nil {
+				return cfg.Wrap(m.Backend.NewSession()), nil, nil
+			}
 			return m.Backend.NewSession(), nil, nil
 		},
 		Caps: caps, Logger: m.Log, InsecureAuth: cfg.Insecure || !cfg.TLS,
